@@ -284,6 +284,8 @@ def run(ctx):
     shared.naming_rule(ctx, "C08.R4")
     listing_rule(ctx, "C08.R5")
     batching.id_universe_rule(ctx, "C08.R6")
+    from . import c07
+    r7 = c07.order_rule(ctx, "C08.R7")
     prog = ctx.prog
     crop = prog.need_cls(CROP + ".Crop")
     sl = [crop.methods[n] for n in ("calc_progress", "is_ready_to_reap", "missing_results", "num_sown_batches", "num_results", "grow", "grow_missing", "check_bad", "delete_all", "is_prepared", "_sync_info_from_disk", "load_info", "__str__") if n in crop.methods]
